@@ -126,7 +126,7 @@ def gen_names(rng, n, style):
         pool += TRICKY
     if style >= 2:
         pool += QUOTED
-    pool = rng.shuffle(pool)
+    pool = rng.shuffle(sorted(set(pool)))       # a label must not be drawn twice: two ac facts for one statement are not a well-formed ADF
     return pool[:n]
 
 
